@@ -436,3 +436,198 @@ def run_scheduled(fns, segments, timeout=60.0, lazy_trace=False, mode=None):
         _REC = None
         sys.setswitchinterval(old_switch)
     return dict(results=results, log=rec.log, counts=s.counts, parks=s.parks, mode=s.mode)
+
+
+# ---------------------------------------------------------------- process-wide cells written by an encode
+#
+# The wrappers above log the accesses to the shared cells somebody KNEW of (colour context, strategy registry).  A
+# shared cell nobody knew of is an ATTRIBUTE of a process-wide object: an instance kept in a module global, in a class
+# attribute, in a functools.cache / lru_cache, a class attribute itself, a module global that is rebound.  `StateProbe`
+# finds those objects without a list of names — every instance of a class defined in the rtflite package that is alive
+# while no document exists (after a warm-up encode, the documents dropped, gc.collect()), plus every module global and
+# class attribute of the package — and fingerprints their state (attribute → value for atoms, identity + length for
+# containers, entry count for functools caches).  `state_windows` runs one encode alone under sys.settrace and takes
+# the fingerprint at every library call boundary (the scheduler's switch points, same numbering): the boundaries at
+# which some cell holds a value different from its idle value are the points INSIDE a `set … restore` window (a flag
+# switched off and back on in a try/finally, a "current document" attribute set and cleared), the boundaries at which a
+# cell changes for good are the two sides of a write to a "last used …" cell.  A thread parked there while another
+# document is encoded is the schedule such a cell needs; props/c15.py enumerates them (family "state-window").
+
+_ATOMS = (type(None), bool, int, float, str, bytes, complex)
+
+
+def _fp(v):
+    """cheap comparable fingerprint of one attribute value"""
+    if isinstance(v, _ATOMS):
+        return v
+    if isinstance(v, (tuple, frozenset)) and len(v) <= 8 and all(isinstance(x, _ATOMS) for x in v):
+        return ("t",) + tuple(v) if isinstance(v, tuple) else ("f",) + tuple(sorted(map(repr, v)))
+    if isinstance(v, (dict, list, set, bytearray)):
+        if len(v) <= 6:
+            try:
+                items = list(v.items()) if isinstance(v, dict) else list(v)
+                flat = [x for it in items for x in (it if isinstance(it, tuple) else (it,))]
+                if all(isinstance(x, _ATOMS) for x in flat):
+                    return ("c", id(v), repr(items))
+            except Exception:  # noqa: BLE001
+                pass
+        return ("c", id(v), len(v))
+    ci = getattr(v, "cache_info", None)
+    if ci is not None and callable(ci) and hasattr(v, "__wrapped__"):
+        try:
+            return ("lru", id(v), ci().currsize)
+        except Exception:  # noqa: BLE001
+            pass
+    import enum
+    if isinstance(v, enum.Enum):
+        return ("e", repr(v))
+    return ("o", id(v))
+
+
+class StateProbe:
+    """the process-wide cells of the rtflite package (see above).  Build it while NO document exists."""
+
+    def __init__(self, pkg_name="rtflite"):
+        import gc
+
+        self.holders = []            # (label, namespace dict | object, kind)
+        seen = set()
+
+        def lib(modname):
+            return isinstance(modname, str) and (modname == pkg_name or modname.startswith(pkg_name + "."))
+
+        for mname, mod in sorted(sys.modules.items()):
+            if not lib(mname) or mod is None:
+                continue
+            ns = vars(mod)
+            self.holders.append((mname, ns, "module"))
+            seen.add(id(ns))
+            for k, v in list(ns.items()):
+                if isinstance(v, type) and getattr(v, "__module__", None) == mname and id(v) not in seen:
+                    seen.add(id(v))
+                    self.holders.append((f"{mname}.{k}", v, "class"))
+        gc.collect()
+        for o in gc.get_objects():
+            try:
+                t = type(o)
+                if isinstance(o, type) or not lib(getattr(t, "__module__", None)):
+                    continue
+                d = getattr(o, "__dict__", None)
+            except Exception:  # noqa: BLE001
+                continue
+            if isinstance(d, dict) and id(o) not in seen:
+                seen.add(id(o))
+                self.holders.append((f"{t.__module__}.{t.__name__}#{len(self.holders)}", o, "instance"))
+        self.n_instances = sum(1 for h in self.holders if h[2] == "instance")
+
+    def _keys(self):
+        """module / class holders: the names bound to DATA (not to functions, classes, modules — those are code);
+        a name that appears later shows as a change of the namespace's size"""
+        import types
+
+        code = (types.FunctionType, types.BuiltinFunctionType, types.ModuleType, type, staticmethod, classmethod,
+                property, types.MethodDescriptorType, types.WrapperDescriptorType, types.MemberDescriptorType,
+                types.GetSetDescriptorType)
+        out = []
+        for _label, h, kind in self.holders:
+            if kind == "instance":
+                out.append(None)
+                continue
+            ns = h if kind == "module" else vars(h)
+            out.append(tuple(k for k, v in list(ns.items())
+                             if not (k.startswith("__") and k.endswith("__"))
+                             and (not isinstance(v, code) or hasattr(v, "cache_info"))
+                             and not (kind == "module" and getattr(type(v), "__module__", "") == "typing")))
+        return out
+
+    def snapshot(self):
+        """→ list (one entry per holder) of tuples ((name, fingerprint) …)"""
+        if getattr(self, "_k", None) is None:
+            self._k = self._keys()
+        out = []
+        for (_label, h, kind), keys in zip(self.holders, self._k):
+            if keys is None:
+                try:
+                    items = list(vars(h).items())
+                except RuntimeError:     # changed size during iteration (another thread): try once more
+                    items = list(dict(vars(h)).items())
+                out.append(tuple((k, _fp(v)) for k, v in items))
+            else:
+                ns = h if kind == "module" else vars(h)
+                out.append((("<names>", len(ns)),) + tuple((k, _fp(ns.get(k))) for k in keys))
+        return out
+
+    def diff(self, a, b):
+        """cells (label.attribute) whose fingerprints differ between two snapshots"""
+        out = []
+        for (label, _h, _k), x, y in zip(self.holders, a, b):
+            if x != y:
+                dx, dy = dict(x), dict(y)
+                out += [f"{label}.{k}" for k in sorted(set(dx) | set(dy), key=str) if dx.get(k, _fp) != dy.get(k, _fp)]
+        return out
+
+
+def state_windows(fn, probe: StateProbe, pkg: str | None = None, short: int = 8, spaced: int = 4):
+    """Run `fn` (one encode) alone on a new thread under sys.settrace; fingerprint the process-wide cells at every
+    library call boundary.  → dict(calls, points, cells, restored, kept):
+      points  sorted budgets k ("the thread has entered k library calls and is parked at the entry of the next one")
+              at which a process-wide cell is inside a set … restore window (all the boundaries of a window of ≤ `short`
+              boundaries; its first two, last two and `spaced` evenly spaced ones otherwise), or next to a write that
+              stays (the boundary before and after it)
+      cells   {cell: [budgets]} the same by cell; restored / kept: the cells of the two kinds"""
+    pkg = pkg or pkg_dir()
+    idle = probe.snapshot()
+    trail = []                      # (call number m, cells that differ from idle) for the boundaries where any does
+    state = dict(m=0, prev=idle, prev_cells=())
+
+    def tracer(frame, event, arg):
+        if event == "call" and frame.f_code.co_filename.startswith(pkg):
+            state["m"] += 1
+            cur = probe.snapshot()
+            if cur != state["prev"]:
+                state["prev"] = cur
+                state["prev_cells"] = tuple(probe.diff(idle, cur)) if cur != idle else ()
+            if state["prev_cells"]:
+                trail.append((state["m"], state["prev_cells"]))
+        return None
+
+    def body():
+        sys.settrace(tracer)
+        try:
+            fn()
+        except Exception:  # noqa: BLE001
+            pass
+        finally:
+            sys.settrace(None)
+
+    t = threading.Thread(target=body)
+    t.start()
+    t.join(300)
+    final = probe.snapshot()
+    kept = set(probe.diff(idle, final))
+    by_cell = {}
+    for m, cells in trail:
+        for c in cells:
+            by_cell.setdefault(c, []).append(m - 1)          # budget that parks the thread before call m
+    points, cells_out = set(), {}
+    for c, ks in sorted(by_cell.items()):
+        runs, cur = [], [ks[0]]
+        for k in ks[1:]:
+            if k == cur[-1] + 1:
+                cur.append(k)
+            else:
+                runs.append(cur)
+                cur = [k]
+        runs.append(cur)
+        mine = set()
+        for r in runs:
+            if c in kept and r is runs[-1]:
+                mine.update(k for k in (r[0] - 1, r[0]) if k >= 0)        # the two sides of the write that stays
+            elif len(r) <= short:
+                mine.update(r)
+            else:
+                mine.update(r[:2] + r[-2:] + [r[(len(r) * (j + 1)) // (spaced + 1)] for j in range(spaced)])
+        cells_out[c] = sorted(mine)
+        points |= mine
+    return dict(calls=state["m"], points=sorted(points), cells=cells_out,
+                restored=sorted(c for c in by_cell if c not in kept), kept=sorted(kept))
